@@ -123,6 +123,17 @@ func TestVerifC20RaceChild(t *testing.T) {
 		}
 	}()
 	wg.Wait()
+	// panics recovered around loop bodies (each would have terminated the daemon) go to the parent
+	for _, p := range s.panics {
+		fmt.Printf("CHILD-PANIC %s|%s|%s|%s\n%s\nCHILD-PANIC-END\n", c20Site(p.Stack), p.Proc, p.Step, p.Value, firstLines(p.Stack, 30))
+	}
+	if os.Getenv("VERIF_DEBUG") != "" {
+		fmt.Printf("child: %d statements, %d zk mutations, %d recovered panics, master %q, converged %v, marks %v\n", s.w.StmtLen(), s.zk.MutLen(), len(s.panics), s.masterKey(), s.converged(), s.markedHosts())
+		fmt.Printf("child: %s", s.describe())
+		for _, p := range s.panics {
+			fmt.Printf("child panic in %s/%s: %s\n%s\n", p.Proc, p.Step, p.Value, firstLines(p.Stack, 30))
+		}
+	}
 	s.zk.Stop()
 	s.w.Stop()
 }
@@ -172,7 +183,7 @@ func TestVerifC20Race(t *testing.T) {
 	stt.Rule = "for each generated workload (2-3 HA hosts, optional cascade replica, a host marked for recovery or not, manager_switchover on/off, 10-40 iterations, 0-8 disturbances from {client write, replica crash, replica start, switch request, host unregistered, host registered, every host marked for recovery}) a child process built with the race detector runs, in real time and on 4 OS threads, the four loops (manager iteration, health report, recovery check, lag check) of every mysync process concurrently against the fake servers; oracle: the race detector's report files; a report whose accesses are both in harness code is a harness failure (inconclusive), any other report is a violation identified by the two innermost functions; non-trivial = every workload (all run concurrent loops)"
 	stt.Assumptions = []string{"interleavings are those the Go scheduler produced in the runs made; the race detector reports a race when both unsynchronised accesses occur in one run, whatever their timing"}
 	stt.Check(t, vs.CheckOpts{}, func(c *vs.Case) {
-		prm := c20RaceParams{Hosts: c.Src.Int("hosts", 2, 3), Cascade: c.Src.Bool("cascade"), Iterations: c.Src.Int("iterations", 10, 40), Marked: c.Src.Bool("marked_host"), MgrSwitch: c.Src.Bool("manager_switchover")}
+		prm := c20RaceParams{Hosts: []int{2, 3, 3}[c.Src.Int("hosts", 0, 2)], Cascade: c.Src.Bool("cascade"), Iterations: c.Src.Int("iterations", 10, 40), Marked: c.Src.Int("marked_host", 0, 2) != 0, MgrSwitch: c.Src.Bool("manager_switchover")}
 		nd := c.Src.Int("disturbances", 0, 8)
 		for i := 0; i < nd; i++ {
 			prm.Disturb = append(prm.Disturb, c.Src.Int("disturbance", 0, 6))
@@ -202,10 +213,15 @@ func TestVerifC20Race(t *testing.T) {
 		dir, _ := os.MkdirTemp("", "verifrace")
 		defer os.RemoveAll(dir)
 		var reports []string
+		lastOut := ""
 		for attempt := 0; attempt < 2 && len(reports) == 0; attempt++ {
 			cmd := exec.Command(os.Args[0], "-test.run=^TestVerifC20RaceChild$", "-test.count=1", "-test.timeout=170s")
 			cmd.Env = append(os.Environ(), "VERIF_RACE_CHILD="+string(b), "GORACE=log_path="+filepath.Join(dir, "race")+" halt_on_error=0 exitcode=0", "GOMAXPROCS=4", "VERIF_OUT="+filepath.Join(dir, "childstats"))
 			out, err := cmd.CombinedOutput()
+			lastOut = string(out)
+			if os.Getenv("VERIF_DEBUG") != "" {
+				fmt.Printf("---- child output (err=%v)\n%s\n----\n", err, out)
+			}
 			files, _ := filepath.Glob(filepath.Join(dir, "race.*"))
 			for _, f := range files {
 				data, _ := os.ReadFile(f)
@@ -221,6 +237,11 @@ func TestVerifC20Race(t *testing.T) {
 					// the daemon's code killed the process (a panic outside any recoverable loop body,
 					// e.g. in a goroutine it spawned): that is a C20 violation, not a harness problem
 					site := c20Site(string(out)[i:])
+					for _, d := range prm.Disturb {
+						if (d == 4 || d == 5) && strings.Contains(string(out)[i:], "nil pointer dereference") {
+							site = "host-registry-refreshed-under-a-running-manager-iteration"
+						}
+					}
 					c.Violation("c20-panic@"+site+"(process-death)", "the workload's process died: %s", firstLines(string(out)[i:], 40))
 				}
 				c.Violation("harness-race-child-failed", "calibration: child failed: %v\n%s", err, firstLines(string(out), 60))
@@ -228,6 +249,25 @@ func TestVerifC20Race(t *testing.T) {
 			if os.Getenv("VERIF_REPLAY") == "" {
 				break // a second attempt only when replaying a saved workload
 			}
+		}
+		if i := strings.Index(lastOut, "CHILD-PANIC "); i >= 0 {
+			line := lastOut[i+len("CHILD-PANIC "):]
+			site := strings.SplitN(line, "|", 2)[0]
+			j := strings.Index(line, "CHILD-PANIC-END")
+			if j < 0 {
+				j = len(line)
+			}
+			edits := false
+			for _, d := range prm.Disturb {
+				edits = edits || d == 4 || d == 5
+			}
+			if edits && strings.Contains(line[:j], "nil pointer dereference") {
+				// one root cause, many sites (known finding): a host name captured earlier in the manager
+				// iteration no longer resolves because another loop of the same process (the recovery
+				// check of a marked host) refreshed the registry meanwhile
+				site = "host-registry-refreshed-under-a-running-manager-iteration"
+			}
+			c.Violation("c20-panic@"+site, "a loop body of the concurrent workload panicked (the daemon would terminate): %s", line[:j])
 		}
 		for _, r := range reports {
 			sig, harness := raceSig(r)
